@@ -51,7 +51,10 @@ def _migrate_v1_to_v2(root_directory):
     # Try to migrate a custom workspace directory if one exists.
     current_workspace_name = cfg.get("workspace_dir")
     if current_workspace_name is not None:
-        if current_workspace_name != "workspace":
+        # "./workspace" and "workspace/" are the default location as well. Compare the
+        # whole normalised path (not just its last component: "scratch/workspace" is a
+        # custom directory that has to be moved).
+        if os.path.normpath(current_workspace_name) != "workspace":
             current_workspace = os.path.join(root_directory, current_workspace_name)
             new_workspace = os.path.join(root_directory, "workspace")
             if os.path.exists(new_workspace):
